@@ -34,6 +34,7 @@ type HarnessCfg struct {
 	WitnessSamples int                       `json:"witness_samples"`
 	Witness        []string                  `json:"witness"` // tags of deliberately falsifiable assertions (translator validation)
 	Doc            string                    `json:"doc"`
+	ECDHMayFail    bool                      `json:"ecdh_may_fail"` // the X25519 model may refuse the remote share (low-order point)
 	Noop           []string                  `json:"noop"` // functions with empty bodies, for this harness only
 	Params         map[string]int            `json:"-"`
 }
